@@ -291,6 +291,66 @@ def check_fixed(rec):
         rec.fail(f'fixed:raises:{exc_key(exc)}', case, repr(exc)[:300])
 
 
+FROZEN = [
+    # formulas without an input among their precedents: frozen by the trim
+    ("apostrophe", '="\'"&P1&"\'!R2"'), ("two-apostrophes", '="\'\'"&P1'),
+    ("leading-space", '=" "&P1&" "'), ("hash", '="#"&P1'),
+    ("quote", '=' + '"' * 4 + '&P1&' + '"' * 4), ("looks-numeric", '="00"&P2'),
+    ("looks-logical", '="TRUE"&""'), ("looks-exponent", '="1e"&P2'),
+    ("multi-line", '=P1&"\n"&P1'), ("long", '=' + '&"  "&'.join(['P1'] * 12)),
+    ("empty", '=""'), ("integral-float", '=P2*1.0'), ("tiny", '=P2/1e9'),
+    ("logical", '=P2>0'), ("error", '=P2/0'), ("na", '=NA()'),
+    ("blank-ref", '=P3'),
+]
+
+
+def check_frozen(rec, name, formula, fmt):
+    """a frozen cell keeps the value it had at trim time, also through a
+    save/load round trip, whatever that value looks like"""
+    cells = {'P1': 'North Region', 'P2': 12, 'A1': 1, 'B1': formula,
+             'D1': '=B1&"|"&A1', 'E1': '=IFERROR(LEN(B1),-1)+A1',
+             'F1': '=IF(ISNUMBER(B1),B1+A1,A1)'}
+    spec = {'sheets': {'S': cells}}
+    outputs = ['S!D1', 'S!E1', 'S!F1']
+    case = dict(kind='frozen', name=name, formula=formula, fmt=fmt)
+    rec.case(key=('frozen', name, fmt), nontrivial=True,
+             labels=('frozen', f'fmt:{fmt}'), sample=case)
+    try:
+        with TempDir() as tmp:
+            m = compile_spec(spec)
+            m.trim_graph(['S!A1'], outputs)
+            if fmt != 'direct':
+                from pycel.excelcompiler import ExcelCompiler
+                m.to_file(os.path.join(tmp, 'm'), file_types=(fmt,))
+                m = ExcelCompiler.from_file(os.path.join(tmp, f'm.{fmt}'))
+            for value in (1, 'z', 7.5):
+                m.set_value('S!A1', value)
+                vals = dict(cells)
+                vals['A1'] = value
+                ref = compile_spec({'sheets': {'S': vals}})
+                for a in outputs:
+                    got, want = models.safe_eval(m, a), models.safe_eval(ref, a)
+                    if not models.same_value(got, want):
+                        rec.fail(f'frozen:output-differs:{name}:' +
+                                 ('loaded' if fmt != 'direct' else 'trimmed'),
+                                 case,
+                                 f'B1 {formula} frozen by trim_graph([A1], '
+                                 f'{outputs}) ({fmt}), A1={value!r}: {a} = '
+                                 f'{got!r}, expected {want!r}')
+                        return
+    except Exception as exc:
+        rec.fail(f'frozen:raises:{exc_key(exc)}:{name}', case,
+                 repr(exc)[:300])
+
+
+def check_frozen_all(rec):
+    for (name, formula), fmt in itertools.product(
+            FROZEN, ('direct', 'yml', 'json', 'pkl')):
+        check_frozen(rec, name, formula, fmt)
+    rec.exhaustive.append(f'{len(FROZEN)} kinds of frozen value x {{direct, '
+                          f'yml, json, pkl}}')
+
+
 TWINS = [('A:A', 'A1:A3', 'S!A2'), ('B:B', 'B1:B3', 'S!B3'),
          ('1:1', 'A1:B1', 'S!B1'), ('A:B', 'A1:B3', 'S!B2'),
          ('2:3', 'A2:B3', 'S!A3')]
@@ -358,6 +418,7 @@ def shards(tier, seed):
 
 def run_shard(shard, rec):
     if shard['kind'] == 'twins':
+        check_frozen_all(rec)
         return check_twins(rec)
     if shard['kind'] == 'fixed':
         check_fixed(rec)
@@ -367,6 +428,8 @@ def run_shard(shard, rec):
 
 
 def replay(case, rec):
+    if isinstance(case, dict) and case.get('kind') == 'frozen':
+        return check_frozen(rec, case['name'], case['formula'], case['fmt'])
     if isinstance(case, dict) and case.get('kind') == 'twin':
         return check_twin(rec, case['pair'], case['agg'], tuple(case['pre']),
                           tuple(case['outputs']), case['loaded'])
